@@ -1,9 +1,52 @@
-import Okane.Drv.IOUtil
-/-! Driver commands for C06 (stub: replaced when the property's streams are built). -/
+import Okane.Drv.Core
+import Okane.Model.Diag
+/-!
+Driver for C06.
+`drv c06 class` : input lines are `hx c06 inproc` records (`<id> parse=.. ... process=<class> [tree=<sexp>] ms=..`);
+                  output `<id> model=<ok|err:<idx>:<Kind>|panic:<site>|fuelOut|notree|undecodable>` —
+                  the outcome class of the model's `process` on the tree the real loader delivered.
+`drv c06 perr`  : input `<id> <enc file text> <startPos> <errPos>`; output the model's `ParseError::new`:
+                  `<id> ls=<line_start> span=<a>..<b> len=<|input|>` or `<id> panic:<site>` / `<id> fuelOut`.
+-/
 namespace Okane.Drv.C06
+open Okane Okane.Drv
 
-def main (args : List String) : IO Unit := do
-  let _ := args
-  pure ()
+def kindOf (e : BkErrS) : String :=
+  match (bkErrDesc e).1 with
+  | .atom k :: _ => k
+  | _ => "?"
+
+def classStep (line : String) : String :=
+  let (id, fs) := splitFields line
+  match field fs "tree" with
+  | none => s!"{id} model=notree"
+  | some t =>
+    match decEntries t with
+    | none => s!"{id} model=undecodable"
+    | some es =>
+      match Okane.process es with
+      | .ok _ => s!"{id} model=ok"
+      | .err (i, e) => s!"{id} model=err:{i}:{kindOf e}"
+      | .panic s => s!"{id} model=panic:{Sexp.encode s}"
+      | .fuelOut => s!"{id} model=fuelOut"
+
+def perrStep (line : String) : String :=
+  match words line with
+  | [id, text, sp, ep] =>
+    match Sexp.decode text, sp.toNat?, ep.toNat? with
+    | some t, some startPos, some errPos =>
+      let bytes := t.toUTF8.toList
+      match Diag.parseErrorNew (Diag.parseErrorFuel bytes) bytes startPos errPos with
+      | .ok pe => s!"{id} ls={pe.lineStart} span={pe.errorSpan.start}..{pe.errorSpan.stop} len={pe.input.length}"
+      | .err _ => s!"{id} err"
+      | .panic s => s!"{id} panic:{Sexp.encode s}"
+      | .fuelOut => s!"{id} fuelOut"
+    | _, _, _ => s!"{id} bad-case"
+  | _ => "bad-case"
+
+def main (args : List String) : IO Unit :=
+  match args with
+  | ["perr"] => forEachLine perrStep
+  | _ => forEachLine classStep
 
 end Okane.Drv.C06
